@@ -9,8 +9,8 @@
 //
 // `csib` lines: the same step descriptions as sibling elements of one container parse (tuple items, object
 // fields): the container hands its one context to every child (`schema.ParseAny(v, ctx)`).
-// Tuples return the children's results, objects only their verdicts (issues by path). (Arrays re-code every child
-// issue as invalid_element, so a child's outcome class is not observable there; runSib can build them, the generator does not.)
+// Tuples return the children's results, objects and arrays only their verdicts (an array returns its input slice; it
+// re-codes every child issue as invalid_element: there a failing child shows as `err` only). A child may itself be a wrapped schema (`W=<stack>`).
 //
 // Entry points: Parse, ParseAny, MustParse (panic value = the error), StrictParse (typed nil where the
 // constraint type has one).
@@ -33,6 +33,7 @@ type pstep struct {
 	h     []string
 	entry string // Parse | ParseAny | MustParse | StrictParse
 	in    string // nil | nilptr | ok | bad
+	stack string // csib only: the child is the schema under this chain of .Transform(f_i)/.Pipe(target_i) wrappers ("" = bare)
 }
 
 var ctxInits = []string{"fresh", "new", "report", "flag", "errmap"}
@@ -195,6 +196,9 @@ func stepObs(st pstep, res any, err error, pm string) string {
 func stepDesc(st pstep) string {
 	own := hx.B01(ownPath(st.e, st.h))
 	d := fmt.Sprintf("%s %s %s %s %s", st.entry, st.in, st.e.rule, hx.B01(st.e.admitsNil), own)
+	if st.stack != "" {
+		d += " W=" + st.stack
+	}
 	if len(st.h) > 0 {
 		d += " " + strings.Join(st.h, " ")
 	}
@@ -240,6 +244,11 @@ func runSeq(o *hx.Out, init string, steps []pstep) bool {
 		}
 		if fs := ctxState(fctx); fs != ctxState(mkCtx("fresh")) {
 			obs[i] += "!freshctx-changed:" + fs
+		}
+		// the shared context's own fields after EVERY step (a step that sets a field and a later one that resets it
+		// would be invisible in the comparison at the end of the sequence)
+		if cs := ctxState(ctx); cs != before {
+			obs[i] += "!ctx-changed:" + cs
 		}
 		descs[i] = stepDesc(st)
 		o.Count("cseq-step:" + strings.SplitN(obs[i], "!", 2)[0])
@@ -287,6 +296,11 @@ func runSib(o *hx.Out, kind, init string, steps []pstep) bool {
 		if s == nil {
 			return false
 		}
+		if st.stack != "" {
+			if pm := hx.Safely(func() { s = wrapSchema(s, st.stack) }); pm != "" || s == nil {
+				return false
+			}
+		}
 		zs, ok := s.(core.ZodSchema)
 		if !ok {
 			return false
@@ -332,6 +346,7 @@ func runSib(o *hx.Out, kind, init string, steps []pstep) bool {
 		ctx = mkCtx(init)
 		before = ctxState(ctx)
 	}
+	calls = nil
 	res, err, pm := callEntry(cont, "Parse", reflect.ValueOf(input), ctx)
 	obs := make([]string, len(steps))
 	descs := make([]string, len(steps))
@@ -366,15 +381,22 @@ func runSib(o *hx.Out, kind, init string, steps []pstep) bool {
 			}
 			// no issue for this child
 			obs[i] = "ok"
+			// (an array validates its elements but returns its INPUT slice — child results are discarded, types/array.go
+			// validate — so there a succeeding child shows as `ok` only)
 			if kind == "tuple" && err == nil && st.in != "ok" && st.in != "bad" {
 				if arr, ok := deref(res).([]any); ok && i < len(arr) {
-					obs[i] = strings.ReplaceAll(classify(st.e, arr[i], nil), " ", "_")
+					if st.stack != "" {
+						// a wrapped child: the result as a term over the bare schema's outcome (which callbacks it went through)
+						obs[i] = "ok:" + term(st.e, st.h, arr[i], nil, false)
+					} else {
+						obs[i] = strings.ReplaceAll(classify(st.e, arr[i], nil), " ", "_")
+					}
 				}
 			}
 		}
 	}
 	for i, st := range steps {
-		descs[i] = stepDesc(pstep{st.e, st.h, "Child", st.in})
+		descs[i] = stepDesc(pstep{st.e, st.h, "Child", st.in, st.stack})
 		o.Count("csib-step:" + obs[i])
 	}
 	cs := "same"
@@ -405,7 +427,7 @@ func randStep(r *hx.Rng, es []entry, entries []string) pstep {
 			h[j] = hx.Pick(r, opNames)
 		}
 	}
-	return pstep{e, h, hx.Pick(r, entries), hx.Pick(r, seqInputs)}
+	return pstep{e, h, hx.Pick(r, entries), hx.Pick(r, seqInputs), ""}
 }
 
 // runCtxClasses: the exhaustive pairs (every short step before every short step, one context / one tuple) and the
@@ -429,7 +451,7 @@ func runCtxClasses(o *hx.Out, r *hx.Rng, es []entry, thorough bool) {
 				h = []string{op}
 			}
 			if build(e, h) != nil {
-				short = append(short, pstep{e, h, "Parse", "nil"})
+				short = append(short, pstep{e, h, "Parse", "nil", ""})
 			}
 		}
 	}
@@ -451,13 +473,18 @@ func runCtxClasses(o *hx.Out, r *hx.Rng, es []entry, thorough bool) {
 		}
 		runSeq(o, hx.Pick(r, ctxInits), steps)
 	}
-	kinds := []string{"tuple", "tuple", "object"}
+	kinds := []string{"tuple", "tuple", "object", "array"}
 	inits := append([]string{"none", "none"}, ctxInits...)
 	for i := 0; i < nSib; i++ {
 		n := 2 + r.Intn(3)
 		steps := make([]pstep, n)
 		for j := range steps {
 			steps[j] = randStep(r, es, []string{"Parse"})
+			// a third of the children under a wrapper chain: the nil reaches ZodTransform.Parse / ZodPipe.Parse through the
+			// container's ParseAny(child, ctx) — the wrapper position "member of a container"
+			if r.Chance(33) && (steps[j].in == "nil" || steps[j].in == "nilptr") {
+				steps[j].stack = hx.Pick(r, allStacks)
+			}
 		}
 		runSib(o, hx.Pick(r, kinds), hx.Pick(r, inits), steps)
 	}
